@@ -404,7 +404,8 @@ def build_g3j(c):
 def g4_auth(draw):
     what = draw(st.sampled_from(["zip-garbage", "zip-truncated", "zip-zlib", "zip-gzip", "zip-empty", "zip-trailing", "claims",
                                  "zip-zlib-garbage", "zip-zlib-badsum", "zip-zlib-flip", "zip-zlib-truncated",
-                                 "cbc-empty", "cbc-partial-block", "cbc-bad-padding", "cbc-zero-padding", "cbc-all-padding"]))
+                                 "cbc-empty", "cbc-partial-block", "cbc-bad-padding", "cbc-zero-padding", "cbc-all-padding",
+                                 "zip-protected-nonstring"]))
     data = draw(st.binary(max_size=60))
     claims = draw(st.one_of(st.binary(max_size=30), jsonv.json_value(6).map(lambda v: json.dumps(v).encode()),
                             st.sampled_from([b"[1,2]", b'"s"', b"1", b"null", b"true", b"{", b"\xff\xfe", b"", b"NaN", b"[" * 3000 + b"]" * 3000])))
@@ -432,6 +433,23 @@ def build_g4(c):
         pseg = rb.encode(json.dumps(prot, separators=(",", ":")).encode())
         tag = rjwe._cbc_tag(enc, cek[:half], pseg.encode(), iv, ct)
         return "jwe", ".".join([pseg, "", rb.encode(iv), rb.encode(ct), rb.encode(tag)]), prot
+    if c["what"] == "zip-protected-nonstring":
+        # an authenticated JSON token whose protected "zip" is not a string while an unprotected part carries a well-formed one: the
+        # type test that looks at the merged header is satisfied, the protected value is what the decompression step reads
+        bad = [["DEF"], {}, {"DEF": 1}, 5, None, True, [], 1.5][len(data) % 8]
+        prot = {"alg": "dir", "enc": "A128GCM", "zip": bad}
+        pseg = rb.encode(json.dumps(prot, separators=(",", ":")).encode())
+        ct, tag = rjwe.content_encrypt("A128GCM", K["oct16"]["k"], bytes(12), pseg.encode(), rjwe.deflate(b"hello " + data))
+        tok = {"protected": pseg, "iv": rb.encode(bytes(12)), "ciphertext": rb.encode(ct), "tag": rb.encode(tag)}
+        if len(data) % 2:
+            tok["unprotected"] = {"zip": "DEF"}
+        else:
+            tok["header"] = {"zip": "DEF"}
+        if len(data) % 3 == 0:
+            tok = {k2: v for k2, v in tok.items() if k2 != "header"}
+            tok["recipients"] = [{"header": {"zip": "DEF"}}]
+            return "jwe-general", tok, prot
+        return "jwe-flattened", tok, prot
     if c["what"] == "claims":
         payload = bytes.fromhex(c["claims_hex"])
         if c["transport"] == "jws":
